@@ -19,6 +19,13 @@ namespace CTV.Der
 inductive Mode | lax | strict | canon
   deriving Repr, DecidableEq, Inhabited
 
+/-- mode for the fields of a struct: under a RawContent struct `Marshal` writes the raw octets back whatever the
+fields look like, so `canon` asks of them only what `strict` asks -/
+def Mode.under (m : Mode) (raw : Bool) : Mode :=
+  match m, raw with
+  | .canon, true => .strict
+  | m, _ => m
+
 def Mode.isLax : Mode → Bool | .lax => true | _ => false
 def Mode.isCanon : Mode → Bool | .canon => true | _ => false
 
@@ -442,7 +449,7 @@ mutual
 def parseField (d : Dialect) (m : Mode) : ATy → FP → Bytes → Except Err (AVal × Bytes)
   | .struct raw fs, p, bs =>
     fieldShell d m (.struct raw fs) p bs fun _ _ inner consumed =>
-      match parseFields d m fs inner with
+      match parseFields d (m.under raw) fs inner with
       | .error e => .error e
       | .ok (vs, left) =>
         if m.isCanon && !raw && !left.isEmpty then .error .other
